@@ -138,7 +138,7 @@ struct numeric_limits<char> {
 
     static constexpr bool is_iec559  = false;
     static constexpr bool is_bounded = true;
-    static constexpr bool is_modulo  = is_signed;
+    static constexpr bool is_modulo  = not is_signed;
 
     static constexpr bool traps                    = true;
     static constexpr bool tinyness_before          = false;
